@@ -170,4 +170,30 @@ theorem dup_rejected_counterexample :
   rw [direct_render 30 [("t0", dupTemplate)] "t0" [] dupTemplate (by simp) (by decide)] at h1
   simp [dupTemplate, Template.nodes, topsNodes, renderItems_cons, renderItems_nil, renderItem, seqOut] at h1
 
+/-- **Sentence 3d**: a mismatched `endblock` name is rejected.  Whatever precedes it (`pre`, parsed without
+error) and whatever follows it, an `{% endblock m %}` that closes a block whose name is not `m` makes the parse
+fail with TemplateInheritanceError. -/
+theorem endblock_mismatch_rejected (pre rest : List Tok) (m : String) (s : PState) (f : Frame) (fs : List Frame)
+    (hpre : prun pinit pre = .ok s) (hopen : s.frames = f :: fs) (hne : m ≠ f.name) :
+    parseToks (pre ++ .cls (some m) :: rest) = .error .inheritance := by
+  simp only [parseToks, prun_append, hpre, prun, pstep, hopen]
+  simp [hne]
+
+/-- … and nothing else is: a parse fails with TemplateInheritanceError only at a named `endblock` that differs
+from the innermost open block (an `endblock` without a name, or with the block's own name, is accepted). -/
+theorem endblock_rejected_only_on_mismatch (toks : List Tok) (h : parseToks toks = .error .inheritance) :
+    ∃ pre m rest s f fs, toks = pre ++ .cls (some m) :: rest ∧ prun pinit pre = .ok s ∧
+      s.frames = f :: fs ∧ m ≠ f.name := by
+  unfold parseToks at h
+  cases hr : prun pinit toks with
+  | error e =>
+    simp only [hr] at h
+    cases h
+    exact prun_inheritance pinit toks hr
+  | ok s =>
+    simp only [hr] at h
+    cases hf : s.frames with
+    | nil => simp [hf] at h
+    | cons a as => simp [hf] at h
+
 end LiquidVerif.C18
